@@ -172,7 +172,103 @@ def real(cfg, events, seed):
     return result
 
 
+def closing_window(seed):
+    """C02 / C17 over real WebSocket connections, in the window the direct-call driver cannot reach: some
+    subscribed connections have STARTED the WebSocket closing handshake (close frame received, TCP not yet torn
+    down: autobahn refuses to send on them) at the instant other connections add messages.  Every connection that
+    is still subscribed and not closing must get every added message exactly once, every add must be stored, and
+    the adder must not be dropped."""
+    import random
+    from twisted.internet import reactor, endpoints, defer, task
+    from twisted.internet.defer import inlineCallbacks
+    from wormhole_mailbox_server import server as S, database as DB
+    from wormhole_mailbox_server.web import make_web_server
+    from wormhole_mailbox_server.test.ws_client import WSFactory
+    rng = random.Random(seed)
+    n_closers = rng.choice([1, 2, 5, 12])
+    n_adds = rng.choice([1, 3, 8])
+    order = rng.choice(["stayers-first", "closers-first", "mixed"])
+    d = tempfile.mkdtemp(prefix="mwloop-", dir="/dev/shm" if os.path.isdir("/dev/shm") else None)
+    result = {"seed": seed, "closers": n_closers, "adds": n_adds, "order": order}
+
+    @inlineCallbacks
+    def main(_reactor):
+        chan = DB.create_or_upgrade_channel_db(os.path.join(d, "relay.sqlite"))
+        srv = S.make_server(chan)
+        site = make_web_server(srv, log_requests=False)
+        lp = yield endpoints.TCP4ServerEndpoint(reactor, 0, interface="127.0.0.1").listen(site)
+        port = lp.getHost().port
+        url = "ws://127.0.0.1:%d/v1" % port
+        stay = [("B", "s1"), ("C", "s2"), ("D", "s1")]
+        closers = [("A%d" % i, "s1") for i in range(n_closers)]
+        names = {"stayers-first": stay + closers, "closers-first": closers + stay,
+                 "mixed": stay[:1] + closers[:len(closers) // 2 + 1] + stay[1:2] + closers[len(closers) // 2 + 1:] + stay[2:]}[order]
+        cl = {}
+        try:
+            for name, side in names:
+                f = WSFactory(url)
+                f.d = defer.Deferred()
+                reactor.connectTCP("127.0.0.1", port, f)
+                c = yield f.d
+                cl[name] = c
+                yield c.next_non_ack()                      # welcome
+                c.send("bind", appid="app", side=side)
+                c.send("open", mailbox="mb1")
+                yield c.sync()
+            for c in cl.values():
+                c.events = []
+            adder = cl["C"]
+            k = 0
+            for i, (name, _side) in enumerate(closers):
+                cl[name].sendClose()
+                if k < n_adds:
+                    adder.send("add", phase="p", body="%02d" % k)
+                    k += 1
+            while k < n_adds:
+                adder.send("add", phase="p", body="%02d" % k)
+                k += 1
+            yield task.deferLater(reactor, 0.4, lambda: None)
+            got = {}
+            for name in ("B", "C", "D"):
+                got[name] = sorted(e["body"] for e in cl[name].events if isinstance(e, dict) and e.get("type") == "message")
+            result["received"] = got
+            result["stored"] = sorted(r["body"] for r in chan.execute("SELECT body FROM messages").fetchall())
+            result["adder_connected"] = adder.state == adder.STATE_OPEN
+        finally:
+            for c in cl.values():
+                try:
+                    c.transport.loseConnection()
+                except Exception:
+                    pass
+            yield lp.stopListening()
+
+    from twisted.internet.task import react
+    try:
+        try:
+            react(main, [])
+        except SystemExit as e:
+            if e.code not in (0, None):
+                raise
+    finally:
+        shutil.rmtree(d, ignore_errors=True)
+    want = ["%02d" % i for i in range(n_adds)]
+    problems = []
+    if result.get("stored") != want:
+        problems.append("%d adds were sent by a connected client, stored are %s" % (n_adds, result.get("stored")))
+    for name, l in (result.get("received") or {}).items():
+        if l != want:
+            problems.append("connection %s (subscribed, not closing) received %s of the %d added messages" % (name, l, n_adds))
+    if result.get("adder_connected") is False:
+        problems.append("the adding connection was dropped by the server")
+    result["ok"] = not problems
+    result["problems"] = problems
+    return result
+
+
 def main():
+    if len(sys.argv) > 2 and sys.argv[1] == "--closing":
+        print(json.dumps(closing_window(int(sys.argv[2]))))
+        return
     job = json.load(sys.stdin)
     cfg, seed = job["cfg"], job.get("seed", 0)
     events = [ev for ev in job["events"] if ev["k"] in ("connect", "cmd", "disconnect")]
